@@ -370,7 +370,7 @@ def check_local_params(ctx, f, lp):
         any(t_ in ("propensity_params={'type':'general','rate':rate_string}", "propensity_params={'rate':rate_string,'type':'general'}") for t_ in txt)
     rx = [t for t in txt if t.startswith('rxn=(')]
     ok2 = rx == ["rxn=(reactant_list,product_list,propensity_params['type'],propensity_params,delay_type,delay_reactants,delay_products,delay_params)"]
-    ctx.ob('R13.4-local-parameters', 'general-rate', ok and ok2 and 'allreactions.append(rxn)' in txt, where,
+    ctx.ob('R13.4-local-parameters', 'general-rate', ok and ok2 and any(t_ in txt for t_ in ('allreactions.append(rxn)', 'allreactions+=[rxn]', 'allreactions.extend([rxn])', 'allreactions=allreactions+[rxn]')), where,
            "an un-annotated reaction becomes (reactants, products, 'general', {'rate': formula string}, no delay)", str(rx))
 
 
@@ -647,6 +647,9 @@ def check_every_reaction_kept(ctx, f, lp):
                 lists.add(e.id)
     apps = [c for c in ast.walk(lp) if isinstance(c, ast.Call) and isinstance(c.func, ast.Attribute) and c.func.attr in ('append', 'insert', 'extend')
             and isinstance(c.func.value, ast.Name) and c.func.value.id in lists and 'reaction' in c.func.value.id]
+    # (`L += [rxn]` stores as well)
+    apps += [n_ for n_ in ast.walk(lp) if isinstance(n_, ast.AugAssign) and isinstance(n_.op, ast.Add) and isinstance(n_.target, ast.Name)
+             and n_.target.id in lists and 'reaction' in n_.target.id]
     if not apps:
         raise AnalysisError('import_sbml_reactions: the statement that stores the imported reaction was not found')
     for c in apps:
